@@ -12,9 +12,10 @@ CONSTANTS
   Downs = @DOWNS@
   AuthClasses = @AUTH@
   HiddenClasses = @HIDDEN@
+  PortCfgs = @PORTS@
   AllCuts = @ALLCUTS@
   Dev = @DEV@
   FullTimeline = @FULL@
   Mode = "@MODE@"
-INVARIANTS Emit TargetPrefix PeerOnlyTarget AcceptOnlyValid HangOnlyAuthenticated CloseOnlyIncomplete
+INVARIANTS Emit RightTarget TargetPrefix PeerOnlyTarget AcceptOnlyValid HangOnlyAuthenticated CloseOnlyIncomplete
 CHECK_DEADLOCK FALSE
